@@ -58,6 +58,13 @@ MUTANTS = [
     ("C18", "seeded C18h-2: dirty thread-local buffer after a failed rendering (history-dependent)", "@patch", "/verif/seeded/C18h-2/patch.diff", None),
     ("C18", "seeded C18i-1: chunks_exact(8) drops trailing entries", "@patch", "/verif/seeded/C18i-1/patch.diff", None),
     ("C18", "seeded C18i-2: all-zero matrix part rendered as absent", "@patch", "/verif/seeded/C18i-2/patch.diff", None),
+    # ---- round 8 changes that were missed at first try --------------------------------------------------------------
+    ("C16", "seeded C16k-1: integer field keys exchange two parts", "@patch", "/verif/seeded/C16k-1/patch.diff", None),
+    ("C16", "seeded C16k-2: wrong field count announced to serialize_struct", "@patch", "/verif/seeded/C16k-2/patch.diff", None),
+    ("C17", "seeded C17k-1: 0 + x returns x itself (sign of a zero)", "@patch", "/verif/seeded/C17k-1/patch.diff", None),
+    ("C17", "seeded C17k-2: TypeErrors quoting an arity message are replaced", "@patch", "/verif/seeded/C17k-2/patch.diff", None),
+    ("C18", "seeded C18k-2: separator lost every 1024 entries", "@patch", "/verif/seeded/C18k-2/patch.diff", None),
+    ("C05", "seeded C05k-1: zero canonicalisation drops inner parts of nested entries", "@patch", "/verif/seeded/C05k-1/patch.diff", None),
     # ---- C17: conformance (fault-free) ---------------------------------------------------------------------
     ("C17", "arcsin forwards to asinh", "src/python_macro.rs", "self.0.asin().into()", "self.0.asinh().into()"),
     ("C17", "reflected subtraction with swapped operands", "src/python_macro.rs", "(-self.0.clone() + lhs).into()", "(self.0.clone() - lhs).into()"),
